@@ -667,6 +667,17 @@ int hostile_kinds() { return 18; }
 
 std::string hostile_mutation(const std::string& raw, sim::Rng& r, int kind, std::string* desc) {
     std::string s = raw;
+    if (kind >= 1000) {
+        // exact reason code (C20 enumeration): set the reason-code byte of the packet to kind - 1000
+        if (desc) *desc = "exact_reason_code";
+        uint8_t v = (uint8_t)(kind - 1000);
+        uint8_t t = ((uint8_t)s[0]) >> 4;
+        if ((t == PUBACK || t == PUBREC || t == PUBREL || t == PUBCOMP) && s.size() >= 5) s[4] = (char)v;
+        else if (t == CONNACK && s.size() >= 4) s[3] = (char)v;
+        else if ((t == SUBACK || t == UNSUBACK) && s.size() >= 6) s[s.size() - 1] = (char)v;
+        else if ((t == DISCONNECT || t == AUTH) && s.size() >= 3) s[2] = (char)v;
+        return s;
+    }
     if (kind < 0) kind = (int)r.below(hostile_kinds());
     auto set = [&](const char* d) { if (desc) *desc = d; };
     auto rl_len = [&]() { size_t i = 1; while (i < s.size() && i < 5 && (s[i] & 0x80)) ++i; return i; };   // bytes of the varint minus last
